@@ -283,11 +283,16 @@ pub fn target_keys(ks: Vec<Key>, n: u64, wanted: &[u64]) -> Vec<Key> {
         return ks;
     }
     let set: std::collections::HashSet<u64> = wanted.iter().map(|w| w % n).collect();
-    let exact = wanted.len() == 1 || n <= 65536;
+    let exact = wanted.len() == 1 || n <= 4096;
+    // total work bound (bytes hashed): long keys x large tables made the search itself take a minute
+    let mut budget: u64 = 200_000_000;
     // expected tries: n (exact) or n / |set|; bounded so that generation stays cheap
     let max_tries: u64 = if exact { (n * 24 + 64).min(2_000_000) } else { ((n / set.len() as u64 + 1) * 24).min(2_000_000) };
     let mut out = Vec::new();
     let mut seen = std::collections::HashSet::new();
+    if std::env::var_os("VP_DEBUG_TARGET").is_some() {
+        eprintln!("target_keys: {} keys, n={n}, wanted={}, exact={exact}, max_tries={max_tries}", ks.len(), wanted.len());
+    }
     for (i, k) in ks.into_iter().enumerate() {
         let want = wanted[i % wanted.len()] % n;
         let hit = |b: u64| if exact { b == want } else { set.contains(&b) };
@@ -295,7 +300,15 @@ pub fn target_keys(ks: Vec<Key>, n: u64, wanted: &[u64]) -> Vec<Key> {
             Key::P { len, seed } if len >= 3 => {
                 let mut s = seed;
                 let mut found = None;
-                for _ in 0..max_tries {
+                for t in 0..max_tries {
+                    let cost = len as u64 + 16;
+                    if budget < cost {
+                        break;
+                    }
+                    budget -= cost;
+                    if t % 4096 == 0 {
+                        crate::exec::tick();
+                    }
                     let c = Key::P { len, seed: s };
                     if hit(bucket_of(&c.bytes(), n)) {
                         found = Some(c);
@@ -308,7 +321,15 @@ pub fn target_keys(ks: Vec<Key>, n: u64, wanted: &[u64]) -> Vec<Key> {
             Key::S { len, seed } if len >= 3 => {
                 let mut s = seed;
                 let mut found = None;
-                for _ in 0..max_tries {
+                for t in 0..max_tries {
+                    let cost = len as u64 + 16;
+                    if budget < cost {
+                        break;
+                    }
+                    budget -= cost;
+                    if t % 4096 == 0 {
+                        crate::exec::tick();
+                    }
                     let c = Key::S { len, seed: s };
                     if hit(bucket_of(&c.bytes(), n)) {
                         found = Some(c);
